@@ -40,7 +40,7 @@ AL == { <<>>,
 BodyAlpha == { T("lit", "k"), T("id", "x"), T("id", "y"), T("id", "z"), T("paste", ""),
                T("str", "\"x\""), UseT("N", <<>>), UseT("N1", << << <<T("id", "x")>> >> >>),
                [k |-> "bqs", n |-> "", a |-> <<T("lit", "s "), T("id", "x"), T("lit", " e")>>, g |-> FALSE],
-               T("cont", "") }
+               T("cont", ""), T("undef", "N") }
 
 \* `` only between two plain tokens (what the generators are restricted to, Appendix A.4)
 Pastable(t) == t.k \in {"lit", "id"}
@@ -58,7 +58,10 @@ Complete(b) == IF b = <<>> THEN TRUE ELSE Last(b).k # "paste"
 SimpleActuals(a) == IF a = <<>> THEN TRUE
                     ELSE \A i \in 1..Len(a[1]) : a[1][i] = <<>> \/ (Len(a[1][i]) = 1 /\ a[1][i][1].k = "lit")
 NeedsSimple(b) == \E i \in 1..Len(b) : b[i].k \in {"bqs", "paste"}
-Allowed(a, b) == NeedsSimple(b) => SimpleActuals(a)
+\* a body that ends in an argument-less usage, in a macro without formals used WITH an argument list: the restored
+\* list would be read as the arguments of that trailing usage (the abstract items and the concrete text differ)
+TrailingUseGetsList(f, a, b) == f = <<>> /\ a # <<>> /\ b # <<>> /\ Last(b).k = "use" /\ Last(b).a = <<>>
+Allowed(a, b) == (NeedsSimple(b) => SimpleActuals(a)) /\ ~TrailingUseGetsList(fl, a, b)
 
 MkItem(k, n) == [k |-> k, n |-> n, a |-> <<>>, b |-> <<>>, f |-> 0, ts |-> <<>>, to |-> <<>>, off |-> 0, ln |-> 0, ln2 |-> 0, g |-> FALSE]
 DefItem(n, formals, hasf, toks) == [MkItem("def", n) EXCEPT !.a = formals, !.f = hasf, !.b = <<[src |-> "", toks |-> toks, boff |-> 0]>>]
@@ -98,19 +101,23 @@ Spec == Init /\ [][Next]_vars
 -----------------------------------------------------------------------------
 (* big-step reference, IEEE 1800-2017 22.5.1 *)
 
+\* the define table is threaded through the rescan: a directive inside a body takes effect at the point of use
 RECURSIVE ExpandRef(_, _, _), Rescan(_, _, _)
-RErr(e) == [ok |-> FALSE, err |-> e, toks |-> <<>>]
-ROk(t) == [ok |-> TRUE, err |-> <<>>, toks |-> t]
+RErr(e) == [ok |-> FALSE, err |-> e, toks |-> <<>>, defs |-> <<>>]
+ROk(t, d) == [ok |-> TRUE, err |-> <<>>, toks |-> t, defs |-> d]
 Rescan(ts, defs, depth) ==
-  IF ts = <<>> THEN ROk(<<>>) ELSE
+  IF ts = <<>> THEN ROk(<<>>, defs) ELSE
   LET h == Head(ts) IN
   IF h.k = "use" THEN
        LET e == ExpandRef(h, defs, depth + 1) IN
-       IF ~e.ok THEN e ELSE LET r == Rescan(Tail(ts), defs, depth) IN IF ~r.ok THEN r ELSE ROk(e.toks \o r.toks)
+       IF ~e.ok THEN e ELSE LET r == Rescan(Tail(ts), e.defs, depth) IN IF ~r.ok THEN r ELSE ROk(e.toks \o r.toks, r.defs)
   ELSE IF h.k \in {"lit", "id", "str"} THEN
-       LET r == Rescan(Tail(ts), defs, depth) IN IF ~r.ok THEN r ELSE ROk(<<[t |-> h.n, g |-> h.g]>> \o r.toks)
+       LET r == Rescan(Tail(ts), defs, depth) IN IF ~r.ok THEN r ELSE ROk(<<[t |-> h.n, g |-> h.g]>> \o r.toks, r.defs)
   ELSE IF h.k = "gap" THEN
-       LET r == Rescan(Tail(ts), defs, depth) IN IF ~r.ok THEN r ELSE ROk(<<[t |-> "", g |-> FALSE]>> \o r.toks)
+       LET r == Rescan(Tail(ts), defs, depth) IN IF ~r.ok THEN r ELSE ROk(<<[t |-> "", g |-> FALSE]>> \o r.toks, r.defs)
+  ELSE IF h.k = "undef" THEN
+       LET r == Rescan(Tail(ts), DefDel(defs, h.n), depth) IN
+       IF ~r.ok THEN r ELSE ROk(<<[t |-> "`", g |-> FALSE], [t |-> "undef", g |-> FALSE], [t |-> h.n, g |-> FALSE]>> \o r.toks, r.defs)
   ELSE Rescan(Tail(ts), defs, depth)
 ExpandRef(u, defs, depth) ==
   IF depth > Limit THEN RErr(<<"ExceedRecursiveLimit">>)
@@ -120,7 +127,7 @@ ExpandRef(u, defs, depth) ==
        IF d.a # <<>> /\ u.a = <<>> THEN RErr(<<"DefineNoArgs", u.n>>)
        ELSE LET b == Bind(d.a, IF u.a = <<>> THEN <<>> ELSE u.a[1], 1, <<>>) IN
             IF ~b.ok THEN RErr(b.err)
-            ELSE IF d.b = <<>> THEN ROk(<<>>)
+            ELSE IF d.b = <<>> THEN ROk(<<>>, defs)
             ELSE Rescan(Subst(Glue(d.b[1].toks), d.a, b.m) \o (IF d.a = <<>> /\ u.a # <<>> THEN ParenToks(u.a[1]) ELSE <<>>), defs, depth)
 
 \* merge glued neighbours; an empty piece (empty actual) breaks gluing
@@ -137,16 +144,18 @@ DefsAt(second) ==
     mk("N1", <<[n |-> "p", d |-> <<>>]>>, 1, <<T("lit", "<"), T("id", "p"), T("lit", ">")>>),
     mk("M", fl, IF fl = <<>> THEN 0 ELSE 1, body)>>
 
+\* the table in force at the second usage: what the first usage left, with N redefined in between if chosen
+AfterFirst(r1) == IF redef THEN DefSet(r1.defs, DefsAt(TRUE)[1]) ELSE r1.defs
 RefResult ==
   LET u == [k |-> "use", n |-> "M", a |-> al, g |-> FALSE]
       r1 == ExpandRef(u, DefsAt(FALSE), 1)
-      r2 == ExpandRef(u, DefsAt(TRUE), 1)
-  IN IF ~r1.ok THEN r1 ELSE IF ~r2.ok THEN r2 ELSE ROk(Merge(r1.toks) \o Merge(r2.toks) \o <<"end">>)
+      r2 == ExpandRef(u, AfterFirst(r1), 1)
+  IN IF ~r1.ok THEN r1 ELSE IF ~r2.ok THEN r2 ELSE ROk(Merge(r1.toks) \o Merge(r2.toks) \o <<"end">>, r2.defs)
 
 MachineEqualsRef ==
   (phase = "run" /\ st.status # "run") =>
      LET r == RefResult IN
-     IF r.ok THEN st.status = "ok" /\ OutToks(st) = r.toks
+     IF r.ok THEN st.status = "ok" /\ OutToks(st) = r.toks /\ DefNames(st.defs) = DefNames(r.defs)
      ELSE st.status = "err" /\ st.err = r.err
 
 \* text and tokens around the usage are preserved: the trailing token always survives a successful run
